@@ -402,6 +402,10 @@ func confirm(cfg Config, prop, tier string, seed uint64, tmp string, v core.Viol
 	trouble := ""
 	_, se, code := cfg.run(prop, nil, "shrink", "--prop", prop, "--tier", tier, "--seed", strconv.FormatUint(seed, 10),
 		"--in", in, "--out", out, "--known", cfg.known())
+	if line := fatalLine(string(se)); code != 0 && line != "" {
+		// re-executing the run killed the shrinker: the finding is that the run kills the process
+		return confirmKilled(cfg, prop, tier, seed, &killedRun{index: v.Index, line: line, stderr: tailOf(string(se), 6000)}, workers)
+	}
 	if code != 0 {
 		trouble = fmt.Sprintf("shrink failed (%d): %s", code, tailOf(string(se), 4000))
 	} else {
